@@ -54,7 +54,7 @@ def run(res):
                 first = [l for l in r.stderr.split("\n") if "==" in l][:3]
                 bad.append((ops, "valgrind memcheck: " + " | ".join(first)))
     res.cov["valgrind_runs"] = vg
-    # undelete (adf_salv.c, not modelled): sanitizer reports and the allocation count of the probe's histories
+    # undelete (AdfModel/Salv.lean): sanitizer reports and the allocation count of the probe's histories
     for o, m in undel.probe(res, exe, 12 if res.tier == "quick" else 200):
         if "Sanitizer" in m or "runtime error" in m or "harness exit" in m or "still holds allocations" in m: bad.append((o, m))
     res.cov["samples"] = [specs[0][6:14], specs[-1][6:14]]
